@@ -187,9 +187,12 @@ fn run_ranks(seed: u64, count: usize, maxn: usize, out: &mut impl Write) {
         writeln!(out, "llpinv id=i{i} n={n} t={t} perm={} status={status} inv={inv}", fmt_ints(&p)).unwrap();
     }
     // Large inputs around the minimum task length of the parallel loops (RAYON_MIN_LEN =
-    // 100000): too large for the list-based model, so the two specifications (inverse;
-    // ranks = a permutation monotone in the label) are evaluated here, in the harness, by
-    // plain linear scans.  An UNPROVED probe, reported as such (aspect "big").
+    // 100000): too large for the quadratic checkers of the model, so the data are printed
+    // and judged in the driver by the proved n log n checkers big_check_inverse /
+    // big_check_ranks (aspect "big").  The two specifications (inverse; ranks = a
+    // permutation monotone in the label, ties broken by node) are ALSO evaluated here by plain
+    // linear scans (key hverdict): an unproved verdict the driver compares with its own
+    // (aspect "bigagree").
     for (j, &n) in [99_999usize, 100_000, 100_001, 200_000, 250_003].iter().enumerate() {
         let t = [1usize, 2, 3, 8, 16][j];
         let a = { let mut a = rng.range(1, n - 1); while gcd(a, n) != 1 { a += 1; } a };
@@ -200,27 +203,32 @@ fn run_ranks(seed: u64, count: usize, maxn: usize, out: &mut impl Write) {
             webgraph_algo::invert_permutation(&p, &mut inv);
             inv
         })));
-        let v = match r {
-            Ok(inv) => match (0..n).find(|&i| inv[p[i]] != i) { None => "ok".to_string(), Some(i) => format!("FAIL(inv[perm[{i}]]={})", inv[p[i]]) },
-            Err(m) => format!("FAIL(panic:{})", sanitize(&m)),
+        let (status, v, inv) = match r {
+            Ok(inv) => {
+                let v = match (0..n).find(|&i| inv[p[i]] != i) { None => "ok".to_string(), Some(i) => format!("FAIL(inv[perm[{i}]]={})", inv[p[i]]) };
+                ("ok".to_string(), v, fmt_ints(&inv))
+            }
+            Err(m) => { let s = format!("panic:{}", sanitize(&m)); (s.clone(), format!("FAIL({s})"), String::new()) }
         };
-        writeln!(out, "llpbig id=bi{j} kind=invert n={n} t={t} a={a} b={b} verdict={v}").unwrap();
+        writeln!(out, "llpbig id=bi{j} kind=invert n={n} t={t} a={a} b={b} status={status} hverdict={v} perm={} inv={inv}", fmt_ints(&p)).unwrap();
         let labels: Vec<usize> = (0..n).map(|i| ((a * i + b) % n) / 3).collect();
         let r = catch(std::panic::AssertUnwindSafe(|| with_pool(t, || webgraph_algo::labels_to_ranks(&labels).to_vec())));
-        let v = match r {
+        let (status, v, ranks) = match r {
             Ok(ranks) => {
                 let mut at = vec![usize::MAX; n];
                 let mut bad = None;
                 if ranks.len() != n { bad = Some("length".to_string()); }
                 else {
                     for (x, &r) in ranks.iter().enumerate() { if r >= n || at[r] != usize::MAX { bad = Some(format!("not-a-permutation:node{x}")); break; } at[r] = x; }
-                    if bad.is_none() { for r in 1..n { if labels[at[r - 1]] > labels[at[r]] { bad = Some(format!("not-monotone:rank{r}")); break; } } }
+                    // increasing in (label, node): the sort of labels_to_ranks is stable
+                    if bad.is_none() { for r in 1..n { if (labels[at[r - 1]], at[r - 1]) >= (labels[at[r]], at[r]) { bad = Some(format!("not-monotone:rank{r}")); break; } } }
                 }
-                match bad { None => "ok".to_string(), Some(b) => format!("FAIL({b})") }
+                let v = match bad { None => "ok".to_string(), Some(b) => format!("FAIL({b})") };
+                ("ok".to_string(), v, fmt_ints(&ranks))
             }
-            Err(m) => format!("FAIL(panic:{})", sanitize(&m)),
+            Err(m) => { let s = format!("panic:{}", sanitize(&m)); (s.clone(), format!("FAIL({s})"), String::new()) }
         };
-        writeln!(out, "llpbig id=br{j} kind=ranks n={n} t={t} a={a} b={b} verdict={v}").unwrap();
+        writeln!(out, "llpbig id=br{j} kind=ranks n={n} t={t} a={a} b={b} status={status} hverdict={v} labels={} ranks={ranks}", fmt_ints(&labels)).unwrap();
     }
 }
 
